@@ -7,6 +7,7 @@ package sim
 
 import (
 	"context"
+	"os"
 	"encoding/hex"
 	"encoding/json"
 	"fmt"
@@ -144,6 +145,11 @@ func (m *simModule) ExecuteNewCall(ctx context.Context, call *wasm.Call, cached 
 				}
 				h.addS("C", fmt.Sprintf("%d/%s", ck.Number, ck.Id))
 			} else {
+				if val == nil {
+					if e := curEnv; e != nil {
+						e.Probe("vm_block_input_missing")
+					}
+				}
 				h.addB("B", val)
 			}
 		case *wasm.MapInput, *wasm.StoreDeltaInput:
@@ -210,6 +216,11 @@ func (m *simModule) ExecuteNewCall(ctx context.Context, call *wasm.Call, cached 
 		return inst, fmt.Errorf("simvm: deterministic module failure at block %d", call.Clock.Number)
 	}
 
+	if traceVM {
+		defer func() {
+			fmt.Printf("VM %s blk=%d(%s) args=%s out=%q skip=%v\n", spec.Name, call.Clock.Number, call.Clock.Id, fmtArgs(arguments, argValues), call.Output(), call.CanSkipOutput())
+		}()
+	}
 	switch spec.Kind {
 	case "map":
 		r := h.next()
@@ -352,4 +363,33 @@ func (m *simModule) storeOps(call *wasm.Call, h *hasher) {
 			}
 		}
 	}
+}
+
+var traceVM = os.Getenv("SIM_TRACE_VM") == "1"
+
+func fmtArgs(arguments []wasm.Argument, argValues map[string][]byte) string {
+	out := ""
+	for _, a := range arguments {
+		switch v := a.(type) {
+		case *wasm.MapInput, *wasm.SourceInput, *wasm.StoreDeltaInput:
+			val, ok := argValues[v.Name()]
+			if v.Name() == wasm.ClockType {
+				out += "clock "
+				continue
+			}
+			out += fmt.Sprintf("%s=%q(present=%v,nil=%v) ", v.Name(), trunc(val), ok, val == nil)
+		case *wasm.StoreReaderInput:
+			out += "store:" + v.Name() + " "
+		case *wasm.ParamsInput:
+			out += "params "
+		}
+	}
+	return out
+}
+
+func trunc(b []byte) []byte {
+	if len(b) > 24 {
+		return b[:24]
+	}
+	return b
 }
